@@ -17,6 +17,12 @@ CLAIMED = {
  'C05': dict(engine='symexec', technique='bounded symbolic execution of the real Frame constructors and index/frequency converters over z3 terms: exact reals for the grid structure, rounded-real (delta) model of binary64 for rounding claims; SMT decides each obligation',
              text='For shapes up to 8x8 and every construction route, z3 shows (unsat) that no real df>0, dt>0, fch1 makes fs/ts/ts_ext/fmin/fmax/fmid/t_stop/obs_length/unit and two-index drift rates deviate from the uniform grid; index->frequency->index is the identity for every integer (decomposed into three lemmas) and, in the delta model of binary64, for fch1/df <= 1e12 and j <= 2^24; nearest-channel and in-band claims for every real frequency on dyadic geometries; opposite orientation flags give identical axes and injected data.',
              note='linspace/arange by their documented formulas; delta model |d|<=2^-53 per operation within stated ranges; sat answers of the delta model are candidates concretised by the replayer', ref='DESIGN.md section 4 C05'),
+ 'C08': dict(engine='symexec', technique='bounded symbolic execution of the real PolyphaseFilterbank.channelize / pfb_frontend / cache on symbolic sample streams with a symbolic window (exact DFT for lengths 2,4,8); SMT decides output == FIR+DFT definition, linearity, every chunk composition == one shot, cache isolation',
+             text='For num_branches in {2,4,8}, num_taps <= 4 and every composition of up to 5 (thorough 6) windows into chunks, z3 shows (unsat) that for all sample values and all window coefficients the real code returns exactly the definition, the right number of spectra, the right tail cache, is linear, treats complex input as re + i*im, and that uncached calls / other objects / resets neither use nor disturb the cache.',
+             note='numpy.fft stubbed as the exact DFT; FFT round-off outside; P > 8 outside', ref='DESIGN.md section 4 C08'),
+ 'C09': dict(engine='symexec', technique='bounded symbolic execution of the real quantisers over z3 terms (round-half-even via ToInt, clip via If); value/range/monotonicity by SMT lemmas; refresh schedule as an inductive step from an arbitrary counter state with symbolic integer period plus unrolled call sequences',
+             text='For bit widths 2..8 and inputs of up to 4 symbolic samples, z3 shows the output is clip(round((target_std/data_std)(x-data_mean)+target_mean)) with the statistics estimated once from the leading samples (or the custom deviation), within range, monotone (three lemmas), constant input maps to the target mean, complex = two independent real quantisers; for EVERY integer period the counter step refreshes exactly on calls 0,p,2p.. (p>0) or only on the first call (p<=0).',
+             note='exact reals (ties within 1e-6 skipped in replays); estimate_stats abstracted to fresh symbols inside value queries and verified separately; n<=4', ref='DESIGN.md section 4 C09'),
 }
 NA = {}
 
